@@ -220,3 +220,58 @@ func (a *Analyzer) MergoModelAssumptions() []RuleResult {
 	out = append(out, RuleResult{"B-MERGEMODEL", fn, "transformer functions", "", n >= 1, fmt.Sprintf("%d", n)})
 	return out
 }
+
+// WholeDocumentDecoded (B-EOF): a function of the module that reads a schema with (*json.Decoder).Decode reads ONE value from a
+// stream; whatever follows that value in the file is not looked at by Decode. Every return of such a function that reports success
+// (a nil error) and is reachable from the Decode call must be dominated by an end-of-input test on the same decoder
+// (Token / More / Buffered), otherwise a file with trailing garbage is accepted as if it were the schema.
+func (a *Analyzer) WholeDocumentDecoded() []RuleResult {
+	var out []RuleResult
+	n := 0
+	for _, f := range a.P.Funcs {
+		occ := 0
+		for _, c := range Calls(f) {
+			if shortCallee(c) != "(*encoding/json.Decoder).Decode" {
+				continue
+			}
+			n++
+			dec := c.Common().Args[0]
+			var tests []ssa.Instruction
+			for _, e := range Calls(f) {
+				switch shortCallee(e) {
+				case "(*encoding/json.Decoder).Token", "(*encoding/json.Decoder).More", "(*encoding/json.Decoder).Buffered":
+					if e.Common().Args[0] == dec && InstrReaches(c.(ssa.Instruction), e.(ssa.Instruction)) {
+						tests = append(tests, e.(ssa.Instruction))
+					}
+				}
+			}
+			ok, why := true, fmt.Sprintf("%d end-of-input test(s) on the decoder dominate every successful return", len(tests))
+			for _, b := range f.Blocks {
+				for _, in := range b.Instrs {
+					r, isRet := in.(*ssa.Return)
+					if !isRet || !InstrReaches(c.(ssa.Instruction), r) || len(r.Results) == 0 {
+						continue
+					}
+					last := r.Results[len(r.Results)-1]
+					k, isConst := last.(*ssa.Const)
+					if !isConst || !k.IsNil() {
+						continue // returns an error
+					}
+					dominated := false
+					for _, t := range tests {
+						if t.Block().Dominates(b) {
+							dominated = true
+						}
+					}
+					if !dominated {
+						ok, why = false, "the successful return at "+a.P.InstrPos(r)+" is reached after Decode without any test that the input ends there (Decoder.Token / More / Buffered): a document followed by arbitrary trailing bytes is accepted"
+					}
+				}
+			}
+			out = append(out, RuleResult{"B-EOF", a.P.FuncName(f), fmt.Sprintf("json.Decoder.Decode#%d reads the whole document", occ), a.P.InstrPos(c.(ssa.Instruction)), ok, why})
+			occ++
+		}
+	}
+	out = append(out, RuleResult{"B-EOF", "(module)", "stream-decoding call sites", "", n >= 1, fmt.Sprintf("%d call sites", n)})
+	return out
+}
